@@ -438,6 +438,42 @@ func c13Run(c *engine.Ctx) {
 		c.Count("convex_position_cases", 1)
 		c13Exec(c, c13Case{Pts: pts, Layout: layouts[i%4], Via: "flat"})
 	})
+	// more than 50 points that are ALL collinear, in every primitive direction with |dx|,|dy| <= 3
+	// (all octants), 51 and 60 points, listed ascending, descending, from the middle outwards and
+	// in steps of 7: the answer is the two-point line between the ends
+	var colDirs [][2]int
+	for dx := -3; dx <= 3; dx++ {
+		for dy := -3; dy <= 3; dy++ {
+			if (dx != 0 || dy != 0) && gcdInt(absInt(dx), absInt(dy)) == 1 {
+				colDirs = append(colDirs, [2]int{dx, dy})
+			}
+		}
+	}
+	c.Parallel(len(colDirs), func(i int) {
+		d := colDirs[i]
+		for _, n := range []int{51, 60} {
+			for order := 0; order < 4; order++ {
+				var pts []ref.F
+				for k := 0; k < n; k++ {
+					j := k
+					switch order {
+					case 1:
+						j = n - 1 - k
+					case 2:
+						j = n/2 + (k+1)/2*(1-2*(k%2))
+						if j < 0 || j >= n {
+							j = k
+						}
+					case 3:
+						j = (k*7 + 3) % n
+					}
+					pts = append(pts, ref.F(100+j*d[0]), ref.F(200+j*d[1]))
+				}
+				c.Count("all_collinear_large_inputs", 1)
+				c13Exec(c, c13Case{Pts: pts, Layout: layouts[(i+order)%4], Via: []string{"flat", "multipoint"}[order%2]})
+			}
+		}
+	})
 	// collinear runs THROUGH THE LOWEST POINT in every direction (the radial sort's tie-break): the
 	// lowest point F, three or four further points on one ray from F (every primitive direction
 	// with |dx| <= 3, 0 <= dy <= 3 that keeps F lowest-leftmost), and one point off the ray - every
